@@ -481,7 +481,7 @@ func ProfileByName(name string) Profile {
 		p.PExtra = 0
 		p.PTopPT = 45
 		p.PPre = 0
-		p.PPT = 0
+		p.PPT = 20
 		p.PCoercer = 0
 		p.PTests = 75
 		p.PCatch = 25
